@@ -212,6 +212,24 @@ def run(ctx, res):
     rid12 = res.rule("C07-S12", "LR and GLR put the context's span back after the layout parser ran (shares C13-R10): the anchor "
                      "of EMPTY, and with it the span of every parent that ends in one, is the same in both", floor=2)
     c13.r_layout_span(F, res, rid12)
+    # S14 the automaton GLR parses with is the automaton LR parses with by default (plus right-nulled entries): the state
+    # merge treats LALR_RN as LALR_PAGER (decided by T-R8 `scan-types`, shared)
+    rid14 = res.rule("C07-S14", "LR's default table (LALR_PAGER) and GLR's table (LALR_RN) merge states under the same test (shares "
+                     "T-R8 scan-types): no state exists for GLR alone whose expected tokens LR never looks for", floor=1)
+    from . import tbl
+    sub14 = report.Result("C07", ctx.tier)
+    try:
+        tbl.r8_merge(F, sub14, sub14.rule("T-R8", "shared"))
+        for inst in sub14.instances:
+            if inst["instance"] == "scan-types" and inst["ok"]:
+                res.ok(rid14, "scan-types", inst.get("where"), inst.get("detail"))
+        for v in sub14.violations:
+            if v["key"].endswith("/scan-types"):
+                res.violation(rid14, "scan-types", v["what"], v.get("where"))
+        for u in sub14.undecided_list:
+            res.undecided(rid14, u["what"], u.get("where"))
+    except mir.AnchorLost as e:
+        res.undecided(rid14, str(e))
     # S13 what the parser looks at after a reduction. LR fetches the lookahead AGAIN in the new state (the expected set is
     # narrower there: context-aware lexing); GLR carries the token found before the reduction into the reduced head. With
     # LALR-merged lookaheads the carried token may have no action in the new state although a token the new state expects -
